@@ -329,6 +329,19 @@ func relDiff(want, got *release.Release) (string, string) {
 	a := nz.norm(reflect.ValueOf(want), false)
 	b := nz.norm(reflect.ValueOf(got), false)
 	if p, d := diff(a, b, "Release"); p != "" {
+		// several top-level sections differ: this is another release content altogether (e.g. a stale
+		// or a neighbouring record), not one lossy field
+		am, _ := a.(map[string]any)
+		bm, _ := b.(map[string]any)
+		n := 0
+		for _, k := range []string{"Info", "Chart", "Config", "Manifest", "Hooks"} {
+			if q, _ := diff(am[k], bm[k], k); q != "" {
+				n++
+			}
+		}
+		if n >= 3 {
+			return "another release content (stale or neighbouring record)", p + ": " + d
+		}
 		return pathShape(p), p + ": " + d
 	}
 	wl, gl := userLabels(want.Labels), userLabels(got.Labels)
